@@ -172,3 +172,94 @@ Proof.
       rewrite (fmolar_0 m HM1 HM2) in A. rewrite (fmolar_1 m HM1 HM2) in B. split; [apply A; lra | apply B; lra]. }
     apply pp_swap_molar; [exact Hs | exact Hv | lra | lra].
 Qed.
+
+(* ================= the ideal process loops commute with the relabelling ================= *)
+Section ProcessSwap.
+  Variable kind : PKind.
+  Hypothesis Hkind : kind = IdealIso \/ kind = IdealNonIso.
+  Variable m : Mixture ROps.
+  Variable cd : Conditions ROps.
+  Variables (dt prec : R) (ct : ActModel).
+  Variables (slv slv' : SolveArgs ROps -> res (R * R)).
+  Variable perm : R -> Component ROps -> res (Permeance ROps).
+  Variables (f1 f2 : PervFn ROps) (FR1 FR2 : R).
+
+  Definition swap_sargs (a : SolveArgs ROps) : SolveArgs ROps :=
+    Build_SolveArgs ROps (sa_T a) (swap_comp (sa_x a)) (sa_prec a) (sa_Tp a) (sa_pp a) (sa_P2 a) (sa_P1 a) (sa_ct a).
+  (* the flux calculation of the relabelled problem is the mirror image, and never returns fluxes summing to zero *)
+  Hypothesis Hslv : forall a, slv' (swap_sargs a) = swap_res (slv a).
+  Hypothesis Hnz : forall a J, slv a = Ok J -> fst J + snd J <> 0.
+  (* latent heats are defined for both components (valid vapour-pressure forms) *)
+  Hypothesis Hlat : forall T, (exists h, latent_per_kg ROps (c1 m) T = Ok h) /\ (exists h, latent_per_kg ROps (c2 m) T = Ok h).
+
+  Definition swap_st (st : PState ROps) : PState ROps :=
+    Build_PState ROps (st_m st) (swap_comp (st_x st)) (st_T st) (swap_pair (st_P st)).
+  Definition swap_row (r : PRow ROps) : PRow ROps :=
+    Build_PRow ROps (r_time r) (r_m r) (swap_comp (r_x r)) (r_T r) (swap_pair (r_P r)) (swap_pair (r_J r)) (swap_comp (r_y r)) (r_Q r) (r_Qc r).
+
+  Lemma mk_comp_swap v t c : v = v -> mk_comp ROps v t = Ok c -> mk_comp ROps (1 - v) t = Ok (swap_comp c).
+  Proof.
+    intros _ H. apply mk_comp_R_inv in H. destruct H as [Hr ->]. rewrite mk_comp_R_ok by lra. reflexivity.
+  Qed.
+
+  Lemma step_swap k st row st' :
+    Process.step ROps kind m cd dt prec ct slv perm f1 f2 FR1 FR2 k st = Ok (row, st') ->
+    Process.step ROps kind (swap_mixture m) cd dt prec ct slv' perm f1 f2 FR1 FR2 k (swap_st st) = Ok (swap_row row, swap_st st').
+  Proof.
+    intros H. unfold Process.step in *. cbn [swap_st st_T st_x st_m st_P swap_mixture c1 c2].
+    destruct (Hlat (st_T st)) as [[e1 He1] [e2 He2]]. rewrite He1, He2 in *. cbn [bind] in *.
+    assert (HP : step_permeances ROps kind (swap_mixture m) perm (swap_st st)
+                 = match step_permeances ROps kind m perm st with Ok P => Ok (swap_pair P) | Err e => Err e end).
+    { unfold step_permeances. destruct Hkind as [-> | ->]; cbn [swap_st st_T st_P swap_mixture c1 c2]; [reflexivity|].
+      destruct (perm (st_T st) (c1 m)) as [p1|] eqn:E1, (perm (st_T st) (c2 m)) as [p2|] eqn:E2; cbn [bind]; try reflexivity.
+      (* differing error order: both are errors of the membrane lookup *)
+      all: try (exfalso; clear - H E1 E2; unfold step_permeances in H; rewrite E1 in H; try rewrite E2 in H; cbn [bind] in H; discriminate). }
+    change (Build_PState ROps (st_m st) (swap_comp (st_x st)) (st_T st) (swap_pair (st_P st))) with (swap_st st).
+    rewrite HP. destruct (step_permeances ROps kind m perm st) as [P|]; [|discriminate]. cbn [bind] in *.
+    match type of H with context [slv ?a] =>
+      replace (Build_SolveArgs ROps (st_T st) (swap_comp (st_x st)) prec (cd_Tp cd) (cd_pp cd) (Some (fst (swap_pair P))) (Some (snd (swap_pair P))) ct)
+        with (swap_sargs a) by reflexivity; rewrite (Hslv a); destruct (slv a) as [J|] eqn:EJ; [|discriminate] end.
+    cbn [bind swap_res] in *. pose proof (Hnz _ _ EJ) as HJ.
+    rnum. unfold swap_pair. cbn [fst snd].
+    replace (snd J / (0 + snd J + fst J)) with (1 - fst J / (0 + fst J + snd J)) by (field; lra).
+    destruct (mk_comp ROps (fst J / (0 + fst J + snd J)) Weight) as [y|] eqn:EY; [|discriminate]. cbn [bind] in *.
+    rewrite (mk_comp_swap _ _ _ eq_refl EY). cbn [bind].
+    set (d1 := fst J * cd_A cd * dt) in *. set (d2 := snd J * cd_A cd * dt) in *.
+    assert (HC : cond_heat ROps (swap_mixture m) cd (st_T st) d2 d1 = cond_heat ROps m cd (st_T st) d1 d2).
+    { unfold cond_heat. destruct (cd_Tp cd) as [tp|]; [|reflexivity]. cbn [swap_mixture c1 c2].
+      destruct (Hlat tp) as [[k1 Hk1] [k2 Hk2]]. rewrite Hk1, Hk2. cbn [bind]. rnum. do 2 f_equal. ring. }
+    rewrite HC. destruct (cond_heat ROps m cd (st_T st) d1 d2) as [Qc|]; [|discriminate]. cbn [bind] in *.
+    replace (st_m st - d2 - d1) with (st_m st - d1 - d2) by ring.
+    destruct (Rltb 0 (st_m st - d1 - d2)) eqn:EM; [|discriminate]. apply Rltb_true in EM.
+    unfold swap_comp at 1. cbn [cp].
+    replace (((1 - cp (st_x st)) * st_m st - d2) / (st_m st - d1 - d2)) with (1 - (cp (st_x st) * st_m st - d1) / (st_m st - d1 - d2)) by (field; lra).
+    destruct (mk_comp ROps ((cp (st_x st) * st_m st - d1) / (st_m st - d1 - d2)) Weight) as [x'|] eqn:EX; [|discriminate]. cbn [bind] in *.
+    rewrite (mk_comp_swap _ _ _ eq_refl EX). cbn [bind].
+    replace (e2 * d2 + e1 * d1) with (e1 * d1 + e2 * d2) by ring.
+    assert (HT : next_temperature ROps kind (swap_mixture m) cd dt k (swap_st st) (e1 * d1 + e2 * d2)
+                 = next_temperature ROps kind m cd dt k st (e1 * d1 + e2 * d2)).
+    { unfold next_temperature. destruct (is_iso kind); [reflexivity|].
+      destruct (cd_prog cd); [reflexivity|]. cbn [bind swap_st st_T st_x st_m swap_mixture c1 c2]. unfold first, second, swap_comp. cbn [cp]. rnum.
+      set (h1 := specific_heat ROps (c1 m) (st_T st) / mw (c1 m)). set (h2 := specific_heat ROps (c2 m) (st_T st) / mw (c2 m)).
+      replace ((1 - cp (st_x st)) * h2 + (1 - (1 - cp (st_x st))) * h1) with (cp (st_x st) * h1 + (1 - cp (st_x st)) * h2) by ring.
+      reflexivity. }
+    rewrite HT. destruct (next_temperature ROps kind m cd dt k st (e1 * d1 + e2 * d2)) as [T'|]; [|discriminate]. cbn [bind] in *.
+    assert (HN : next_permeances ROps kind cd f1 f2 FR1 FR2 (swap_st st) (swap_comp x') T' = Ok (swap_pair (st_P st))
+                 /\ next_permeances ROps kind cd f1 f2 FR1 FR2 st x' T' = Ok (st_P st)).
+    { unfold next_permeances. destruct Hkind as [-> | ->]; split; reflexivity. }
+    destruct HN as [HN1 HN2]. rewrite HN1. rewrite HN2 in H. cbn [bind] in *.
+    injection H as <- <-. unfold swap_row, swap_st, swap_pair. cbn [r_time r_m r_x r_T r_P r_J r_y r_Q r_Qc st_m st_x st_T st_P fst snd].
+    reflexivity.
+  Qed.
+  Lemma run_swap n k st rows :
+    Process.run_from ROps kind m cd dt prec ct slv perm f1 f2 FR1 FR2 n k st = Ok rows ->
+    Process.run_from ROps kind (swap_mixture m) cd dt prec ct slv' perm f1 f2 FR1 FR2 n k (swap_st st) = Ok (map swap_row rows).
+  Proof.
+    revert k st rows. induction n as [|n IH]; intros k st rows; cbn [Process.run_from].
+    - intros H; injection H as <-. reflexivity.
+    - destruct (Process.step ROps kind m cd dt prec ct slv perm f1 f2 FR1 FR2 k st) as [[row st']|] eqn:ES; [|discriminate].
+      cbn [bind fst snd]. rewrite (step_swap _ _ _ _ ES). cbn [bind fst snd].
+      destruct (Process.run_from ROps kind m cd dt prec ct slv perm f1 f2 FR1 FR2 n (S k) st') as [rs|] eqn:ER; [|discriminate].
+      cbn [bind]. rewrite (IH _ _ _ ER). cbn [bind]. intros H; injection H as <-. reflexivity.
+  Qed.
+End ProcessSwap.
